@@ -103,9 +103,18 @@ func (t *thread) less(o *thread) bool {
 	return t.a <= o.a
 }
 
+// A handler's number is NOT part of the object: all handlers of a history have equal contents and
+// are distinct subscribers only by identity, which is all the bus may go by (seed C15-h compared
+// handlers by content).  The non-zero size keeps distinct objects at distinct addresses.
 type handler struct {
-	im *impl
-	h  int64
+	im  *impl
+	pad byte
+}
+
+func (hd *handler) id() int64 {
+	hd.im.hmu.Lock()
+	defer hd.im.hmu.Unlock()
+	return hd.im.hid[hd]
 }
 
 type impl struct {
@@ -122,6 +131,8 @@ type impl struct {
 	arrived map[int64]int // event -> goroutines arrived
 	impatient bool        // something timed out in this history: keep further waits short
 	hs      map[int64]*handler
+	hmu     sync.Mutex
+	hid     map[*handler]int64
 }
 
 var statMu sync.Mutex
@@ -135,7 +146,7 @@ func stat(k string, n int) {
 
 func newImpl() hx.Impl {
 	im := &impl{byGoid: map[uint64]*thread{}, scripts: map[item][]act{}, set: map[item]bool{},
-		events: make(chan event, 1024), arrived: map[int64]int{}, hs: map[int64]*handler{}}
+		events: make(chan event, 1024), arrived: map[int64]int{}, hs: map[int64]*handler{}, hid: map[*handler]int64{}}
 	spine.VerifResetEvents()
 	spine.VerifSetYield(im.yield)
 	return im
@@ -252,8 +263,11 @@ func (im *impl) handler(h int64) *handler {
 	defer im.mu.Unlock()
 	hd := im.hs[h]
 	if hd == nil {
-		hd = &handler{im: im, h: h}
+		hd = &handler{im: im}
 		im.hs[h] = hd
+		im.hmu.Lock()
+		im.hid[hd] = h
+		im.hmu.Unlock()
 	}
 	return hd
 }
@@ -439,6 +453,7 @@ func (im *impl) finish(t *thread) {
 // knows (a publisher inside Publish): core; on a fresh goroutine: application.
 func (hd *handler) HandleEvent(p api.EventPayload) {
 	im := hd.im
+	hdh := hd.id()
 	e, err := strconv.ParseInt(p.Ski, 10, 64)
 	if err != nil {
 		return
@@ -451,21 +466,21 @@ func (hd *handler) HandleEvent(p api.EventPayload) {
 	}
 	t := im.byGoid[g]
 	if t == nil {
-		t = &thread{a: hd.h + 1, b: e, resume: make(chan struct{})}
+		t = &thread{a: hdh + 1, b: e, resume: make(chan struct{})}
 		im.byGoid[g] = t
 		im.mu.Unlock()
 		stat("application_deliveries", 1)
 		im.park(t, "arrived", evArrive)
-		im.emit(hx.Zs{4, t.a, t.b, 1, hd.h, e})
-		im.runScript(t, im.script(1, hd.h))
+		im.emit(hx.Zs{4, t.a, t.b, 1, hdh, e})
+		im.runScript(t, im.script(1, hdh))
 		im.finish(t)
 		return
 	}
 	im.mu.Unlock()
 	// synchronous call inside a thread that is publishing
 	stat("core_deliveries", 1)
-	im.emit(hx.Zs{4, t.a, t.b, 0, hd.h, e})
-	acts := im.script(0, hd.h)
+	im.emit(hx.Zs{4, t.a, t.b, 0, hdh, e})
+	acts := im.script(0, hdh)
 	t.inCore = true
 	t.nextPub = len(acts) > 0 && acts[0].k == 2
 	im.park(t, "core", evPark)
